@@ -49,6 +49,9 @@ MISSED = {
     "C20-e": "no generated name came near the 255-octet limit: 1 name in 23 is now padded to exactly 255 (or 254, 252) octets below its origin, so that its relative spelling completes to the boundary",
     "C20-f": "$INCLUDE was only fed to the robustness sub-property: new sub-property `include_layout` moves runs of lines into included files (nested, with and without final newline, with $ORIGIN switches inside) and compares the loaded records; it had been written an hour before this seed arrived and had already exposed a genuine defect (origin leak, fixed in 659f378), but the committed check at the seed's arrival did not have it",
     # round 4 (letters g, h)
+    "C02-g": "every message object was freshly built: messages with EDNS are now also encoded from an object that carried an extended response code before (OPT data still holds its upper bits) and must decode like the fresh object",
+    "C03-h": "every zone record of the server sub-property could be encoded: 1 zone in 12 now holds a TXT record with a 300-octet string, which the constructors accept and the encoder refuses, so that the server's SERVFAIL fallback is reached (no octets may follow its header)",
+    "C04-h": "no generated label began with the ACE prefix and an unparseable Display output was tolerated: `xn--` labels (mostly invalid punycode, two valid) joined the host-name alphabet and the displayed name must parse back to an equal name; this exposed a defect of the unchanged tree, recorded as a known finding",
     "C05-h": "ANAME, the one other type hickory models whose embedded name stays unfolded, was not in the generator: ANAME RRsets (with injected case variants as distinct RRs) joined it",
     "C09-h": "the end-to-end limits sub-property always passed both limits with soft <= hard: two more modes hand the builder only a hard limit (below the default soft limit) or a hard limit below the soft one",
     "C13-h": "every generated request had all header flags clear, as hickory's update builders leave them: RD, CD and AD are now set on 2 requests in 5 before signing, so a reply header that is MACed differently from what is sent fails the completeness clause",
